@@ -55,7 +55,7 @@ BUDGET = {
 REQUIRED = dict(
     monitors=['flux:overlap-mean', 'flux:error-quadrature', 'flux:within-overlapping-minmax', 'flux:grid',
               'flux:constant-stays-constant', 'flux:linearity', 'flux:native-order-invariance',
-              'flux:target-order-invariance', 'simple:plain-mean', 'native:unchanged', 'bin_model:delegates'],
+              'flux:target-order-invariance', 'simple:plain-mean', 'native:unchanged', 'bin_model:equals-bindown-of-grid-and-spectrum'],
     classes=['native:constR', 'native:linear', 'native:log', 'native:edges', 'native:edges-gaps', 'native:res-widths',
              'native:scalar-width', 'native-widths:derived', 'native-widths:nonuniform-array',
              'target:nested', 'target:wide', 'target:narrow', 'target:overlapping', 'target:gaps',
@@ -65,7 +65,8 @@ REQUIRED = dict(
              'ndim:1', 'ndim:2', 'error:yes', 'error:no', 'native-order:shuffled', 'target-order:shuffled',
              'call:2d-with-error', 'route:bin_model', 'route:forward-model', 'same-binner:narrower-widths',
              'same-binner:derived-widths', 'same-binner:other-grid-same-length', 'same-binner:first-again',
-             'same-binner:other-spacing-same-ends-new-binner', 'target:integer-centres'])
+             'same-binner:other-spacing-same-ends-new-binner', 'target:integer-centres',
+             'bin_model:again:same', 'bin_model:again:other-spacing', 'bin_model:again:shuffled', 'bin_model:again:other-spectrum'])
 EPS = float(np.finfo(float).eps)
 RTOL = 1e-12
 
@@ -410,19 +411,36 @@ def setup(ctx):
     taps.tap(SimpleBinner, 'bindown', before('SimpleBinner'), after_simple)
     taps.tap(NativeBinner, 'bindown', before('NativeBinner'), after_native)
 
-    def before_bm(self, a, kw):
-        return {'mo': a[0] if a else kw.get('model_output')}
 
-    def after_bm(self, a, kw, res, exc, tok):
-        if exc is not None:
-            return
-        ctx.observe('route:bin_model')
-        last = _state['calls'][-1] if _state['calls'] else None
-        mo = tok['mo']
-        ok = last is not None and last['self'] is self and last['raw'][0] is mo[0] and last['raw'][1] is mo[1] \
-            and last['raw'][2] is None and last['raw'][3] is None and last['res'] is res
-        ctx.check('bin_model:delegates', ok, binner=type(self).__name__)
-    taps.tap(Binner, 'bin_model', before_bm, after_bm)
+
+def route_bin_model(ctx, B, out):
+    """``binner.bin_model(model_output)`` -- the route the ``taurex`` program, the optimizer and the instruments use --
+    has to give what ``bindown(model_output[0], model_output[1])`` of a FRESH binner of the same declaration gives
+    (and that execution is judged against the reference by the bindown tap).  Nothing is assumed about how
+    ``bin_model`` gets there."""
+    res = guarded(B.bin_model, out)
+    if res is None:
+        return None
+    ctx.observe('route:bin_model')
+    name, d = getattr(B, '_vmon_decl', (None, None))
+    fresh = type(B)(**d) if d is not None and '_unbound' not in d else type(B)()
+    want = guarded(fresh.bindown, out[0], out[1])
+    if want is None:
+        return res
+
+    def same(x, y):
+        if x is None or y is None:
+            return x is None and y is None
+        x, y = np.asarray(x, dtype=float), np.asarray(y, dtype=float)
+        return x.shape == y.shape and bool(np.allclose(x, y, rtol=1e-12, atol=0, equal_nan=True))
+    ok = isinstance(res, tuple) and len(res) == len(want) and all(same(a, b) for a, b in zip(res, want))
+    dev = None
+    if not ok and isinstance(res, tuple) and len(res) > 1 and np.shape(res[1]) == np.shape(want[1]):
+        with np.errstate(all='ignore'):
+            dev = float(np.nanmax(np.abs(np.asarray(res[1], dtype=float) / np.asarray(want[1], dtype=float) - 1)))
+    ctx.check('bin_model:equals-bindown-of-grid-and-spectrum', ok, binner=type(B).__name__, max_rel_dev=dev,
+              native_points=int(np.size(out[0])))
+    return res
 
 
 def teardown(ctx):
@@ -785,15 +803,35 @@ def wl_native(ctx, rng):
     # bin_model: (wngrid, spectrum, tau, extra)
     tau = rng.random((3, n))
     out = (wn, ff, tau, None)
-    nb.bin_model(out)
+    route_bin_model(ctx, nb, out)
     derivable = n >= 2
     _, _, nw, _ = as_bins(c, None) if derivable else (None, None, None, None)
     if derivable:
         nlo, nhi = c - nw / 2, c + nw / 2
         tc, tw, kinds = gen_target(rng, nlo, nhi, nw)
-        FluxBinner(wngrid=tc, wngrid_width=tw).bin_model(out)
+        fb = FluxBinner(wngrid=tc, wngrid_width=tw)
+        route_bin_model(ctx, fb, out)
         if len(tc) >= 2:
-            SimpleBinner(wngrid=tc).bin_model(out)
+            route_bin_model(ctx, SimpleBinner(wngrid=tc), out)
+        # the SAME binner goes on with further model outputs (a sampler calls bin_model once per sample): the same
+        # grid again, another spectrum on it, and a grid with the same count and end points but the other spacing
+        for _ in range(int(rng.integers(1, 4))):
+            how = ['same', 'other-spectrum', 'other-spacing', 'shuffled'][rng.integers(0, 4)]
+            if how == 'same':
+                o2 = out
+            elif how == 'other-spectrum':
+                o2 = (wn, gen_spectrum(rng, c, ndim)[..., p], tau, None)
+            elif how == 'shuffled':
+                q = rng.permutation(n)
+                o2 = (wn[q], ff[..., q], tau, None)
+            else:
+                if n < 3 or c[0] <= 0:
+                    continue
+                c2 = np.geomspace(c[0], c[-1], n) if nk in ('linear', 'scalar-width', 'edges', 'edges-gaps') else np.linspace(c[0], c[-1], n)
+                c2[0], c2[-1] = c[0], c[-1]
+                o2 = (c2, f, tau, None)
+            route_bin_model(ctx, fb, o2)
+            ctx.observe('bin_model:again:' + how)
     ctx.sig('native', nk, n, ndim, int(m), err is not None)
 
 
@@ -824,10 +862,10 @@ def wl_model(ctx, rng):
     t = np.linspace(wn[0], wn[-1], K + 2)[1:-1] if rng.random() < 0.5 else \
         np.logspace(np.log10(wn[0]), np.log10(wn[-1]), K + 2)[1:-1]
     _state['last'] = None
-    FluxBinner(wngrid=t[rng.permutation(K)]).bin_model(out)
+    route_bin_model(ctx, FluxBinner(wngrid=t[rng.permutation(K)]), out)
     j = _state['last']
-    SimpleBinner(wngrid=t).bin_model(out)
-    NativeBinner().bin_model(out)
+    route_bin_model(ctx, SimpleBinner(wngrid=t), out)
+    route_bin_model(ctx, NativeBinner(), out)
     if j is not None and np.any(j['judged']):
         ctx.sig('model', len(wn), K, spec['magnitude'], round(spec['planet_radius'], 5))
     else:
